@@ -170,6 +170,18 @@ DepthWith(x, y, z) == Flat([p \in 1..NForms |-> Flat([k \in 1..Arity(p) |->
              [c \in 1..NForms |-> Form(p, IF k = 1 THEN Form(c, x, y, z) ELSE x, IF k = 2 THEN Form(c, x, y, z) ELSE y,
                                        IF k = 3 THEN Form(c, x, y, z) ELSE z)]])])
 TypedExprs == DepthWith(V(VInt(7)), V(VInt(2)), V(VInt(3))) \o DepthWith(V(VTrue), V(VFalse), V(VTrue))
+\* arithmetic nesting where the grouping decides between a value and an overflow: a op1 (b op2 c) and (a op1 b) op2 c
+\* for every pair of + - * and every operand triple over {0, 2, -1, MAX, MIN}; negation inside and outside
+ArithVals == << V(VInt(0)), V(VInt(2)), V(VInt(-1)), V(VLong(MaxI64)), V(VLong(MinI64)) >>
+ArithOps == <<"add", "sub", "mul">>
+ArithExprs ==
+  Flat([o1 \in 1..3 |-> Flat([o2 \in 1..3 |-> Flat([a \in 1..5 |-> Flat([b \in 1..5 |-> Flat([c \in 1..5 |->
+     << Bin(ArithOps[o1], ArithVals[a], Bin(ArithOps[o2], ArithVals[b], ArithVals[c])),
+        Bin(ArithOps[o2], Bin(ArithOps[o1], ArithVals[a], ArithVals[b]), ArithVals[c]) >>])])])])])
+  \o Flat([o1 \in 1..3 |-> Flat([a \in 1..5 |-> [b \in 1..5 |->
+        Un("neg", Bin(ArithOps[o1], ArithVals[a], ArithVals[b]))]])])
+  \o Flat([o1 \in 1..3 |-> Flat([a \in 1..5 |-> Flat([b \in 1..5 |->
+        << Bin(ArithOps[o1], Un("neg", ArithVals[a]), ArithVals[b]), Bin(ArithOps[o1], ArithVals[a], Un("neg", ArithVals[b])) >>])])])
 \* value nodes that only a program or the JSON decoder can build: sets, records, extension values
 WSet(s) == [k |-> "set", els |-> s]
 OddRec == VRec([n \in {"k", "a b", "if", "", "~{22}", "~{e9}", "true"} |-> VInt(1)])
@@ -202,6 +214,7 @@ AnnoPolicies ==[s \in DOMAIN StrB |->
     principal |-> ScopeAll, action |-> ScopeAll, resource |-> ScopeAll, conds |-> <<>>]]
 MarshalPolicies == Policies \o AnnoPolicies \o [i \in DOMAIN (ValueExprs \o NameExprs) |-> WhenP((ValueExprs \o NameExprs)[i])]
                    \o [i \in DOMAIN TypedExprs |-> WhenP(TypedExprs[i])]
+                   \o [i \in DOMAIN ArithExprs |-> WhenP(ArithExprs[i])]
 \* policy sets: ids in lexicographic (byte) order; windows of the universe under every id assignment pattern
 IdOrder == <<"", "A", "B", "a", "a b", "b", "policy1", "policy10", "policy2", "~{e9}">>
 SetPolicies == ScopePolicies \o [f \in 1..NForms |-> WhenP(Rep(f))]
